@@ -17,6 +17,7 @@ fn alpha_gen(rng: &mut Rng) -> f64 {
         2 => 1e-9,
         3 => 1.0 - 1e-9,
         4 => rng.u8() as f64 / 255.0,
+        5 => 1.0 - 10f64.powf(rng.range(-4.0, -1.0)), // just below 1: where leaving alpha out starts to matter
         _ => rng.unit(),
     }
 }
@@ -75,7 +76,14 @@ pub fn run(s: &mut Session, ctx: &Ctx) {
         s.count_case("", a0 != 1.0);
         for (name, st) in strings.iter() {
             let has_alpha = if *name == "hex" { st.len() == 9 } else { st.matches(',').count() == 3 };
-            s.check(has_alpha == (a0 != 1.0), "alpha-printed-iff-not-1", &format!("to_{}_string", name), || format!("{} alpha {:?}", show_color(&c), a0), || st.clone());
+            // printed only when it differs from 1 (C10); when it is left out, the alpha read back is 1, which
+            // must reproduce the alpha to the printed precision (C02: three decimals, or 1/255 steps in hex)
+            if a0 == 1.0 {
+                s.check(!has_alpha, "alpha-printed-only-when-not-1", &format!("to_{}_string", name), || format!("{} alpha {:?}", show_color(&c), a0), || st.clone());
+            } else if !has_alpha {
+                let tol = if *name == "hex" { 0.5 / 255.0 } else { 0.0005 };
+                s.check((1.0 - a0).abs() <= tol + 1e-12, "alpha-left-out-only-when-it-prints-as-1", &format!("to_{}_string", name), || format!("{} alpha {:?}", show_color(&c), a0), || st.clone());
+            }
         }
     }
 
